@@ -1,0 +1,19 @@
+//go:build verif
+
+// Contracts for the deductive verifier in /verif (comment-only file).
+// Property C11: a read through the mirror asks exactly one of the two replicas
+// first, about the digest it was given; the other one is reached only through
+// the replicator the selector hands out, and that replicator copies INTO the
+// replica that was asked first.
+package mirrored
+
+//@ func (*mirroredBlobAccess).Get
+//@   requires ba.backendA != nil && ba.backendB != nil && ba.backendA != ba.backendB
+//@   ensures result != nil
+//@   ensures [one-replica-first] (baGets(ba.backendA) == old(baGets(ba.backendA)) + 1 && baGets(ba.backendB) == old(baGets(ba.backendB)) && baDigest(ba.backendA) == digest.value && selRep(successiveBackends) == ba.replicatorBToA)
+//@         || (baGets(ba.backendB) == old(baGets(ba.backendB)) + 1 && baGets(ba.backendA) == old(baGets(ba.backendA)) && baDigest(ba.backendB) == digest.value && selRep(successiveBackends) == ba.replicatorAToB)
+//@ func (*mirroredBlobAccess).GetFromComposite
+//@   requires ba.backendA != nil && ba.backendB != nil && ba.backendA != ba.backendB
+//@   ensures result != nil
+//@   ensures [one-replica-first] (baCalls(ba.backendA) == old(baCalls(ba.backendA)) + 1 && baCalls(ba.backendB) == old(baCalls(ba.backendB)) && baDigest(ba.backendA) == parentDigest.value && selRep(successiveBackends) == ba.replicatorBToA)
+//@         || (baCalls(ba.backendB) == old(baCalls(ba.backendB)) + 1 && baCalls(ba.backendA) == old(baCalls(ba.backendA)) && baDigest(ba.backendB) == parentDigest.value && selRep(successiveBackends) == ba.replicatorAToB)
